@@ -11,6 +11,7 @@ import (
 	"runtime"
 	"strings"
 	"sync"
+	"sync/atomic"
 	"testing"
 
 	"github.com/deadsy/sdfx/render"
@@ -30,7 +31,30 @@ import (
 
 func TestMain(m *testing.M) { ev.Main(m) }
 
+// usedRenderer: the renderer object of the measured render has rendered another model before (a program
+// that keeps one renderer for all its parts). Set per configuration.
+var usedRenderer atomic.Bool
+
+type discard3 struct{}
+
+func (discard3) Write([]*sdf.Triangle3) error { return nil }
+func (discard3) Close() error                 { return nil }
+
+type discard2 struct{}
+
+func (discard2) Write([]*sdf.Line2) error { return nil }
+func (discard2) Close() error             { return nil }
+
 func render3(name string, cells int) render.Render3 {
+	r := newRender3(name, cells)
+	if usedRenderer.Load() {
+		big, _ := sdf.Box3D(v3.Vec{X: 9, Y: 2, Z: 0.7}, 0.1)
+		r.Render(sdf.Transform3D(big, sdf.Translate3d(v3.Vec{X: 40, Y: -3, Z: 7})), discard3{})
+	}
+	return r
+}
+
+func newRender3(name string, cells int) render.Render3 {
 	if name == "mco" {
 		return render.NewMarchingCubesOctree(cells)
 	}
@@ -38,6 +62,14 @@ func render3(name string, cells int) render.Render3 {
 }
 
 func render2(name string, cells int) render.Render2 {
+	r := newRender2(name, cells)
+	if usedRenderer.Load() {
+		r.Render(sdf.Transform2D(sdf.Box2D(v2.Vec{X: 9, Y: 0.7}, 0.1), sdf.Translate2d(v2.Vec{X: 40, Y: -3})), discard2{})
+	}
+	return r
+}
+
+func newRender2(name string, cells int) render.Render2 {
 	switch name {
 	case "msq":
 		return render.NewMarchingSquaresQuadtree(cells)
@@ -173,7 +205,32 @@ func otherModel(i int) sdf.SDF3 {
 	}
 }
 
+// otherDir: when set, half of the other renders write a file of their own there (STL, 3MF, DXF, SVG)
+// instead of collecting in memory: several file writers at work in the process at once.
+var otherDir atomic.Value
+
 func otherRender(i int) {
+	if d, _ := otherDir.Load().(string); d != "" && (i/4)%2 == 0 {
+		name := filepath.Join(d, fmt.Sprintf("other-%d", i%64))
+		quietly(func() {
+			switch i % 4 {
+			case 0:
+				render.ToSTL(otherModel(i), name+".stl", render.NewMarchingCubesUniform(8+i%7))
+			case 1:
+				render.To3MF(otherModel(i/2), name+".3mf", render.NewMarchingCubesOctree(8+2*(i%5)))
+			case 2:
+				// (not ToDXF: DXF files written while another DXF drawing is created or saved differ in their
+				// line type records - known finding C09:dxf:bytes-depend-on-concurrent-dxf-writers, reproduced
+				// by TestConcurrentDXFWriters; excluded here by construction so that the search goes on)
+				c, _ := sdf.Circle2D(1 + float64(i%4))
+				render.ToSVG(c, name+".b.svg", render.NewMarchingSquaresQuadtree(20+5*(i%9)))
+				ev.Get().Count("excluded:concurrent-dxf-writer(known finding)", 1)
+			default:
+				render.ToSVG(sdf.Box2D(v2.Vec{X: 2 + float64(i%3), Y: 1}, 0.2), name+".svg", render.NewMarchingSquaresUniform(15+i%10))
+			}
+		})
+		return
+	}
 	switch i % 4 {
 	case 0:
 		render.ToTriangles(otherModel(i), render.NewMarchingCubesUniform(8+i%7))
@@ -205,6 +262,8 @@ func TestDeterministicAcrossConfigurations(t *testing.T) {
 			t.Fatalf("tempdir: %v", err)
 		}
 		defer os.RemoveAll(dir)
+		otherDir.Store(dir)
+		defer otherDir.Store("")
 		var n *shape.Node
 		var run func(mode int) string
 		var rname, sink string
@@ -306,6 +365,7 @@ func TestDeterministicAcrossConfigurations(t *testing.T) {
 			before := rapid.IntRange(0, 3).Draw(t, l+"preceding")
 			during := rapid.IntRange(0, 3).Draw(t, l+"concurrent")
 			runtime.GOMAXPROCS(procs)
+			usedRenderer.Store(rapid.IntRange(0, 3).Draw(t, l+"renderer-object-used-before") == 0)
 			hist := rapid.IntRange(0, 1000).Draw(t, l+"history-kind")
 			for i := 0; i < before; i++ {
 				otherRender(hist + 5*i + ci)
@@ -349,6 +409,7 @@ func TestDeterministicAcrossConfigurations(t *testing.T) {
 				}(i)
 			}
 			got := run(mode)
+			usedRenderer.Store(false)
 			close(stop)
 			wg.Wait()
 			if got != base {
@@ -371,13 +432,100 @@ func TestDeterministicAcrossConfigurations(t *testing.T) {
 // processes under different GOMAXPROCS / GOGC must print identical outputs.
 var inProcCases int
 
-// the To* functions print "rendering <path>" on stdout
-func quietly(f func()) {
-	old := os.Stdout
-	if dn, err := os.OpenFile(os.DevNull, os.O_WRONLY, 0); err == nil {
-		os.Stdout = dn
-		defer func() { os.Stdout = old; dn.Close() }()
+// TestConcurrentDXFWriters reproduces the one recorded finding of this property: a DXF file written while
+// other DXF drawings are being created / saved in the same process differs from the same render on its own
+// (github.com/yofu/dxf shares its default line type objects between drawings; their owner handle, group
+// code 330, comes out as 0 instead of the LTYPE table's handle). Sequential earlier DXF renders do not
+// disturb it.
+func TestConcurrentDXFWriters(t *testing.T) {
+	rec := ev.Get()
+	dir := t.TempDir()
+	model := sdf.Box2D(v2.Vec{X: 0.25, Y: 1.5}, 0.1)
+	other, _ := sdf.Circle2D(3)
+	hash := func(p string) string {
+		b, err := os.ReadFile(p)
+		if err != nil {
+			t.Fatalf("reading %s: %v", p, err)
+		}
+		return fmt.Sprintf("%d bytes %x", len(b), sha256.Sum256(b))
 	}
+	var solo, after string
+	quietly(func() {
+		render.ToDXF(model, filepath.Join(dir, "solo.dxf"), render.NewMarchingSquaresUniform(45))
+		solo = hash(filepath.Join(dir, "solo.dxf"))
+		render.ToDXF(other, filepath.Join(dir, "other.dxf"), render.NewMarchingSquaresUniform(60))
+		render.ToDXF(model, filepath.Join(dir, "after.dxf"), render.NewMarchingSquaresUniform(45))
+		after = hash(filepath.Join(dir, "after.dxf"))
+	})
+	rec.Case(true, "dxf:sequential", "dxf-writers:sequential")
+	if after != solo {
+		rec.Violation(t, "C09:dxf:bytes-depend-on-earlier-dxf-render", "ToDXF of the same model: alone [%s], after another DXF render [%s]", solo, after)
+	}
+	stop := make(chan struct{})
+	var wg sync.WaitGroup
+	for i := 0; i < 4; i++ {
+		wg.Add(1)
+		go func(i int) {
+			defer wg.Done()
+			for {
+				select {
+				case <-stop:
+					return
+				default:
+					quietly(func() {
+						render.ToDXF(other, filepath.Join(dir, fmt.Sprintf("busy%d.dxf", i)), render.NewMarchingSquaresUniform(60))
+					})
+				}
+			}
+		}(i)
+	}
+	differ := 0
+	var example string
+	for k := 0; k < 12; k++ {
+		p := filepath.Join(dir, "conc.dxf")
+		quietly(func() { render.ToDXF(model, p, render.NewMarchingSquaresUniform(45)) })
+		if h := hash(p); h != solo {
+			differ++
+			example = h
+		}
+	}
+	close(stop)
+	wg.Wait()
+	rec.Case(true, "dxf:concurrent", "dxf-writers:concurrent")
+	if differ > 0 {
+		rec.Violation(t, "C09:dxf:bytes-depend-on-concurrent-dxf-writers", "ToDXF of the same model: alone [%s]; %d of 12 renders made while four other goroutines wrote DXF files differ, e.g. [%s]", solo, differ, example)
+	}
+}
+
+// the To* functions print "rendering <path>" on stdout. Calls may overlap (concurrent histories): the
+// first one in redirects stdout, the last one out restores it.
+var (
+	quietMu    sync.Mutex
+	quietDepth int
+	quietSaved *os.File
+	quietNull  *os.File
+)
+
+func quietly(f func()) {
+	quietMu.Lock()
+	if quietDepth == 0 {
+		if dn, err := os.OpenFile(os.DevNull, os.O_WRONLY, 0); err == nil {
+			quietSaved, quietNull = os.Stdout, dn
+			os.Stdout = dn
+		}
+	}
+	quietDepth++
+	quietMu.Unlock()
+	defer func() {
+		quietMu.Lock()
+		quietDepth--
+		if quietDepth == 0 && quietNull != nil {
+			os.Stdout = quietSaved
+			quietNull.Close()
+			quietNull = nil
+		}
+		quietMu.Unlock()
+	}()
 	f()
 }
 
